@@ -527,7 +527,7 @@ func runCheck(id, tier string, cfg propCfg) int {
 				detail = x.Detail
 			}
 		}
-		rp := filepath.Join(verifDir, "replays", fmt.Sprintf("%s-%d-%d.json", id, rec.BatchSeed, rec.Index))
+		rp := filepath.Join(verifDir, "replays", fmt.Sprintf("%s-%d-%d-%s.json", id, rec.BatchSeed, rec.Index, sigSlug(sig)))
 		os.MkdirAll(filepath.Dir(rp), 0o755)
 		rf := map[string]any{
 			"property": id, "sim": cfg.Sim, "batch_seed": rec.BatchSeed, "run_index": rec.Index, "run_seed": rec.Seed,
@@ -585,6 +585,23 @@ func runCheck(id, tier string, cfg propCfg) int {
 		return 1
 	}
 	return 0
+}
+
+func sigSlug(sig string) string {
+	var b []byte
+	for i := 0; i < len(sig); i++ {
+		c := sig[i]
+		switch {
+		case c >= 'a' && c <= 'z', c >= 'A' && c <= 'Z', c >= '0' && c <= '9', c == '-':
+			b = append(b, c)
+		default:
+			b = append(b, '_')
+		}
+	}
+	if len(b) > 60 {
+		b = b[:60]
+	}
+	return string(b)
 }
 
 func describe(bin, sim string) (real, stub, assume []string) {
